@@ -26,7 +26,8 @@ Definition latin1_name : text := [108; 97; 116; 105; 110; 45; 49].           (* 
 (* the composition below is written against these texts of the current source: both kinds of
    placeholder become a '%(name)s' slot, the pieces are joined with nothing in between and applied
    with '%'; both sides of the round trip use UTF-8, PATH_INFO is a latin-1 rendering of bytes;
-   route_url separates extra elements from the path with one '/' unless the path ends with one *)
+   route_url separates extra elements from the path with one '/' unless the path ends with one;
+   every name the model follows is bound once in its scope, by the def that is pinned / translated *)
 Definition gen_sources_ok : bool :=
   text_eqb hole_slot_fmt slot_fmt_expected && text_eqb star_slot_fmt slot_fmt_expected
   && text_eqb template_join_sep [] && template_applied_by_percent
@@ -34,7 +35,8 @@ Definition gen_sources_ok : bool :=
   && text_eqb generator_bytes_codec utf8_name && text_eqb segment_text_codec utf8_name
   && text_eqb url_quote_str_codec utf8_name && text_eqb url_quote_other_codec utf8_name
   && text_eqb path_info_encode_codec latin1_name && text_eqb path_info_decode_codec utf8_name
-  && text_eqb route_url_suffix_sep [47] && text_eqb route_url_endswith_arg [47].
+  && text_eqb route_url_suffix_sep [47] && text_eqb route_url_endswith_arg [47]
+  && names_bound_once.
 
 (* ------------------------------------------------------------------ pattern translation *)
 (* _compile_route walks route_re.split(route) once and feeds both halves: every literal piece goes
